@@ -151,7 +151,7 @@ def run(tier):
                 v.violation("a dotted / '$'-prefixed name is not the component-wise composition of its components' pseudonyms", {"name": n, "result": r_, "expected": want})
                 break
     # ---- (3) through the real CLI: flags that must not matter, separate processes
-    ncli = cli_level(b, v, tier)
+    ncli = cli_level(b, v, tier, bij)
     v.cov.update({"states": states, "transitions": trans, "traces_validated_against_impl": nhist * 4, "exhaustive": True,
                   "histories_replayed": nhist, "dictionary_names": len(names), "cli_runs": ncli, "fresh_side_table_per_history": have_seq,
                   "rule": "model: all names over {a,b,.,$} up to the length bound x all call histories, replayed in order on the real HashName with a fresh side "
@@ -163,10 +163,12 @@ def run(tier):
     return v.finish()
 
 
-def cli_level(b, v, tier):
+def cli_level(b, v, tier, bij=None):
     """Pseudonyms visible in --redactNamespaces / --redactFieldNames output must be the same function of the name in every run."""
     wd = tempfile.mkdtemp(prefix="c13cli-", dir=b.root)
-    names = [("dbZn", "collZn"), ("shop", "orders.archive"), ("a", "b"), ("Ünï", "cöll"), ("db-1", "system.profile")]
+    names = [("dbZn", "collZn"), ("shop", "orders.archive"), ("a", "b"), ("Ünï", "cöll"), ("db-1", "system.profile"),
+             # names that differ only in letter case, and one name in both roles (database and collection)
+             ("Sales", "Orders"), ("sales", "orders"), ("SALES", "Sales"), ("ÜNÏ", "CÖLL")]
     fields = ["name", "userName", "id", "a", "owner.$id", "items.$.qty", "x.y.z", "ü"]
     lines = []
     for i, (db, coll) in enumerate(names):
@@ -237,6 +239,15 @@ def cli_level(b, v, tier):
             else:
                 continue
             break
+    # the names visible in the CLI output take part in the global component <-> pseudonym bijection (same function as the in-process calls;
+    # the role of a name - database, collection - does not matter)
+    if base and bij is not None:
+        for i, (db, coll) in enumerate(names):
+            rec = base.get(1000 + i * 20)
+            if rec:
+                bij.see("REDACTED", db, rec["db"], "CLI -w, $db")
+                bij.see("REDACTED", coll, rec["find"], "CLI -w, the verb's collection")
+                bij.see("REDACTED", db + "." + coll, rec["ns"], "CLI -w, attr.ns")
     # within a run: same component -> same pseudonym across fields (ns = P(db).P(coll); $ref = key)
     if basef:
         for idn, rec in basef.items():
